@@ -545,6 +545,14 @@ MORE_UNITS = [
                 && final(self->Vacant_0.qualifiers)@[ix].0.0@ == self->Vacant_0.key.canon()
                 && final(self->Vacant_0.qualifiers)@ == old(self->Vacant_0.qualifiers)@.insert(ix, (final(self->Vacant_0.qualifiers)@[ix].0, *final(r)))
             }),"""),
+    # R2: `impl<K> Index<K> for Qualifiers { fn index }` hoisted to an inherent method; documented panic => precondition
+    dict(id='U-qmap.index', file=F, fn='index', ctx=r'impl<K> Index<K> for Qualifiers', wrap='impl Qualifiers', properties=['C11', 'C06'],
+         sig_rw=[('R2', r'fn index\(&self, index: K\) -> &Self::Output', 'fn index<K: AsRef<str>>(&self, index: K) -> &SmallString', 1)],
+         contract="""        requires self.wf(), valid_key(index.text()) && has_key(self.qualifiers@, lower_ascii_seq(index.text()))
+        ensures has_pair(self.qualifiers@, lower_ascii_seq(index.text()), r@)""",
+         begin='        broadcast use axiom_view_of_str;',
+         rw=[('R10', r'\|i\| &self\.qualifiers\[i\]\.1', '|i: usize| -> (s: &SmallString) requires i < self.qualifiers@.len() ensures *s == self.qualifiers@[i as int].1 { &self.qualifiers[i].1 }', '*'),
+             ('R4', r'panic!\("Qualifier \{index:\?\} not found"\);', 'x_panic_absent();', '*')]),
 ]
 
 GROUP = dict(
